@@ -91,6 +91,9 @@ class World:
         tqc = self.mkr.adt(V + r'v2::replica_timeout::TimeoutQC', view=self.view(g, v, e), map=MapV(entries, ordered=True), signature=QCGhost(valid, tag))
         return tqc, d
 
+    def timeout_qc_empty(self, v):
+        return self.mkr.adt(V + r'v2::replica_timeout::TimeoutQC', view=self.view(self.g0, v, self.e0), map=MapV([], ordered=True), signature=c04.GhostAgg(groups=[], covers=[]))
+
     def key(self, i): return Opaque(('key', i))
 
     def signed(self, msg, ki, tag, wrap=None):
@@ -99,21 +102,21 @@ class World:
         return Agg('adt', 'Signed', 0, [msg, key, c04.GhostSig(msg, key, ok_)]), ok_
 
     # ---- replica state
-    def state(self, caches=None):
+    def state(self, caches=None, light=False):
         ex = self.ex; mkb = self.mkb
         view = self.num('st_view')
-        ph = ex.choose(3, 'st_phase')
+        ph = ex.choose(3, 'st_phase') if not light else 0
         phase = self.mkr.adt(V + r'v2::consensus::Phase', PHASES[ph])
         st = dict(view=view, phase=ph, hv=None, cqc=None, tqc=None)
         hv = none()
-        if ex.choose(2, 'st_hv') == 0:
+        if not light and ex.choose(2, 'st_hv') == 0:
             hvv, st['hv'] = self.replica_commit('st_hv'); hv = some(hvv)
             ex.assume(st['hv']['view'].e <= view.e)
         cqc = none(); tqc = none()
-        if ex.choose(2, 'st_cqc') == 0:
+        if light or ex.choose(2, 'st_cqc') == 0:
             c, st['cqc'] = self.commit_qc('st_cqc', own=True); cqc = some(c)
             ex.assume(st['cqc']['view'].e < view.e)
-        if ex.choose(2, 'st_tqc') == 0:
+        if not light and ex.choose(2, 'st_tqc') == 0:
             t, st['tqc'] = self.timeout_qc('st_tqc', own=True, with_votes=False); tqc = some(t)
             ex.assume(st['tqc']['view'].e < view.e)
         # reachable-state invariant: a view above 0 is justified by a certificate of the preceding view
